@@ -42,6 +42,17 @@ def main():
 
     rng = ck.rng
     T = ck.thorough
+    # a replay that names a generated network of section 5 (sc_fixed*, sc_rand*, wnet*): the network is rebuilt from (name, seed)
+    # further down, compiled with the recorded options and put through all pipeline checks; the stub-level sections shrink
+    net_replay = []
+    if ck.replay_arg:
+        import json as _json
+        import os as _os
+        _rp = _json.load(open(ck.replay_arg if _os.path.isabs(ck.replay_arg) else _os.path.join(common.VERIF, ck.replay_arg)))
+        _d = _rp.get("replay", {})
+        if not _d.get("stub_case") and str(_d.get("network", "")).startswith(("sc_fixed", "sc_rand", "wnet")) and _d.get("options"):
+            net_replay.append((_d, int(_rp.get("seed", 0))))
+            print("replaying:", _rp.get("what", "")[:300])
     accs = list(Accelerator)
     archs = {}
 
@@ -73,7 +84,7 @@ def main():
             for s in edge_s:
                 for h in edge_h:
                     out.append((b, s, h))
-        for _ in range(20000 if T else 3000):
+        for _ in range((20000 if T else 3000) if not net_replay else 5):
             r = rng.random()
             b = rng.randrange(-(1 << 39), 1 << 39) if r < 0.8 else rng.randrange(-(1 << 41), 1 << 41)
             if r > 0.97:
@@ -426,7 +437,7 @@ def main():
         return "wl_spec " + " ".join(map(str, toks))
 
     # ---- replay of one stub case (./check C08 --replay replays/C08-<seed>-<n>.json) -------------
-    if ck.replay_arg:
+    if ck.replay_arg and not net_replay:
         import json
         import os
         path = ck.replay_arg if os.path.isabs(ck.replay_arg) else os.path.join(common.VERIF, ck.replay_arg)
@@ -434,7 +445,7 @@ def main():
         d = rp.get("replay", {})
         print("replaying:", rp.get("what", "")[:300])
         if not d.get("stub_case"):
-            print("this replay describes a compiled network / request sequence / correspondence; re-run the fixed scenarios with ./check C08 quick "
+            print("this replay describes a request sequence / correspondence / fixed scenario; re-run the fixed scenarios with ./check C08 quick "
                   "(they are rebuilt deterministically: shared_w_int8_int16, two_means_9x2_3x6, one_mean_u65_after_u55, single_buffer_560_vs_2864)")
             print(json.dumps(d, indent=1)[:3000])
             raise SystemExit(0)
@@ -459,7 +470,7 @@ def main():
         raise SystemExit(0 if verdict == "ok" else 1)
 
     # ---- generate stub cases ----------------------------------------------------------------
-    n_cases = 25000 if T else 1500
+    n_cases = (25000 if T else 1500) if not net_replay else 12
     cases = []
     # the recorded witness first (DESIGN.md section 8 #11), then its neighbours
     wit = {"orig": None, "acc": Accelerator.Ethos_U65_512, "kind": "conv", "ifm": "int8", "shape": (1, 1, 4, 8), "dil": 1, "wdt": "int8",
@@ -745,7 +756,7 @@ def main():
     seq_same_reqs, seq_meta = [], []
     cache_model_reqs, cache_real = [], []
     scale_only = []      # (args, scale tensor) of weights-only hits
-    n_worlds = 800 if T else 60
+    n_worlds = (800 if T else 60) if not net_replay else 1
     for wi in range(n_worlds):
         cache.clear()
         base = gen_case({"acc": rng.choice([Accelerator.Ethos_U65_512, Accelerator.Ethos_U55_128, Accelerator.Ethos_U65_256])})
@@ -1347,6 +1358,19 @@ def main():
         for j in range(n_rand):
             r = _random.Random(ck.seed * 104729 + j)
             nets.append((f"sc_rand{j}", r, {}, j))
+        if net_replay:
+            d_, seed_ = net_replay[0]
+            nm = d_["network"]
+            if not nm.startswith("sc_"):
+                return
+            j = int(nm.split("_")[1][5:] if nm.startswith("sc_fixed") else nm.split("_")[1][4:])
+            kw = fixed[j] if nm.startswith("sc_fixed") else {}
+            r = _random.Random(1000 + j) if kw else _random.Random(seed_ * 104729 + j)
+            net = netgen.shared_consts_net(r, j, **kw)
+            print("network:", net.desc[-1], "options:", " ".join(d_["options"]))
+            ck.known_hits.clear()       # only what the replayed network shows counts
+            compile_and_check(nm, netgen.serialize(net), list(d_["options"]), net=net)
+            return
         for nm, r, kw, j in nets:
             net = netgen.shared_consts_net(r, j, **kw)
             data = netgen.serialize(net)
@@ -1367,6 +1391,12 @@ def main():
                 compile_and_check(nm + "_" + acc[6:] + "_" + optm[:4], data, opts, net=net)
 
     shared_consts_sweep()
+    if net_replay and net_replay[0][0]["network"].startswith("sc_"):
+        for w_, p_, _f in ck.violations:
+            print("VIOLATION (replayed):", w_[:400])
+        for k_, w_ in ck.known_hits.items():
+            print("KNOWN-FINDING (replayed):", k_)
+        raise SystemExit(1 if (ck.violations or ck.known_hits) else 0)
 
     def conv_pair_net():
         r = _random.Random(1)
@@ -1413,8 +1443,13 @@ def main():
     compile_and_check("single_buffer_560_vs_2864", overflow_net(), ["--accelerator-config", "ethos-u55-64", "--arena-cache-size", "4000", "--optimise", "Performance"])
     # (e) random weight-heavy networks: scheduler-produced depth slices, incl. two cores
     n_nets = 700 if T else 45
-    for it in range(n_nets):
-        r = _random.Random(ck.seed * 7919 + it)
+    wnet_replay = int(net_replay[0][0]["network"][4:]) if net_replay else None
+    if net_replay:
+        ck.known_hits.clear()
+    for it in range(n_nets if wnet_replay is None else wnet_replay + 1):
+        if wnet_replay is not None and it != wnet_replay:
+            continue
+        r = _random.Random((ck.seed if wnet_replay is None else net_replay[0][1]) * 7919 + it)
         b = netgen.B(r, f"wnet{it}", r.choice(["int8", "int8", "uint8", "int16"]))
         h = r.choice([4, 8, 12])
         pointwise = r.random() < 0.2       # 1x1 feature map: 1x1 convolutions become FullyConnected (type != source type)
@@ -1453,6 +1488,12 @@ def main():
             ini = common.REPO + "/ethosu/config_files/Arm/vela.ini"
             opts += ["--config", ini, "--system-config", "Ethos_U65_High_End", "--memory-mode", r.choice(["Dedicated_Sram", "Shared_Sram"])]
         compile_and_check(f"wnet{it}", data, opts)
+    if net_replay:
+        for w_, p_, _f in ck.violations:
+            print("VIOLATION (replayed):", w_[:400])
+        for k_, w_ in ck.known_hits.items():
+            print("KNOWN-FINDING (replayed):", k_)
+        raise SystemExit(1 if (ck.violations or ck.known_hits) else 0)
 
     cache.clear()
     nontrivial = len({(i, tuple(c["offsets"]), c["acc"]) for i, c in enumerate(cases) if len(c["offsets"]) > 2 or arch_of(c["acc"]).ncores == 2}) \
